@@ -11,6 +11,9 @@ import (
 func (e *Exec) dbInput(name string, s Sort) *Term {
 	t := mkVar(sanitizeName(name), s)
 	kind := map[SortKind]string{KBool: "bool", KInt: "int", KStr: "str", KBV: "u64", KBlob: "blob"}[s.K]
+	if strings.HasSuffix(name, ".xattrs") {
+		kind = "xattrs"
+	}
 	e.inputs = append(e.inputs, inputRec{Name: t.Name, T: t, Kind: kind})
 	return t
 }
